@@ -152,9 +152,8 @@ func DecimalFloatToBigInt(value compact_float.DFloat, maxBase10Exponent int) (*b
 // big.Int to other
 
 func BigIntToBigDecimalFloat(value *big.Int) apd.Decimal {
-	return apd.Decimal{
-		Coeff: *value,
-	}
+	// The coefficient of a decimal is a magnitude: the sign goes into Negative.
+	return *apd.NewWithBigInt(value, 0)
 }
 
 func BigIntToInt(value *big.Int) (int64, error) {
@@ -211,15 +210,8 @@ func FloatToString(value float64) string {
 // int to other
 
 func IntToBigDecimalFloat(value int64) apd.Decimal {
-	if value < 0 {
-		return apd.Decimal{
-			Negative: true,
-			Coeff:    *big.NewInt(-value),
-		}
-	}
-	return apd.Decimal{
-		Coeff: *big.NewInt(value),
-	}
+	// apd.New takes the magnitude as a big.Int, so the smallest int64 is safe.
+	return *apd.New(value, 0)
 }
 
 func IntToUint(value int64) (uint64, error) {
